@@ -9,6 +9,7 @@ import (
 	"github.com/mycoria/mycoria/frame"
 	"github.com/mycoria/mycoria/inst"
 	"github.com/mycoria/mycoria/m"
+	"github.com/mycoria/mycoria/mgr"
 	"github.com/mycoria/mycoria/peering"
 	"github.com/mycoria/mycoria/router"
 	"github.com/mycoria/mycoria/state"
@@ -102,6 +103,11 @@ func NewNode(o NodeOpts) (*Node, error) {
 	return n, nil
 }
 
+type (
+	mgrManager     = mgr.Manager
+	mgrAlertUpdate = mgr.AlertUpdate
+)
+
 func configParse(st config.Store) (cfg *config.Config, err error) {
 	// MakeTestConfig panics on invalid configs; use the same parse with the
 	// same "test" relaxations but as an error.
@@ -116,3 +122,42 @@ func configParse(st config.Store) (cfg *config.Config, err error) {
 type configError struct{ v any }
 
 func (e *configError) Error() string { return "config: " + toString(e.v) }
+
+// WatchPanics installs alert managers on the node's module managers so that
+// panics recovered inside *workers* (mgr.Go) become observable; the returned
+// function lists the worker-panic alerts raised so far.
+func WatchPanics(n *Node) func() []string {
+	type am interface{ Export() mgrAlertUpdate }
+	var watchers []func() []string
+	add := func(name string, m *mgrManager) {
+		if m == nil {
+			return
+		}
+		a := m.NewAlertMgr()
+		watchers = append(watchers, func() []string {
+			var out []string
+			for _, al := range a.Export().Alerts {
+				if len(al.ID) >= 12 && al.ID[:12] == "worker-panic" {
+					out = append(out, name+": "+al.Message)
+				}
+			}
+			return out
+		})
+	}
+	if n.PeeringStub != nil {
+		add("peering", n.PeeringStub.Manager())
+	}
+	if n.SwitchStub != nil {
+		add("switch", n.SwitchStub.Manager())
+	}
+	if n.RouterStub != nil {
+		add("router", n.RouterStub.Manager())
+	}
+	return func() []string {
+		var out []string
+		for _, w := range watchers {
+			out = append(out, w()...)
+		}
+		return out
+	}
+}
